@@ -1682,6 +1682,61 @@ func runBacktest(args []string) string {
 				return "ok runerr"
 			}
 			return "ok run-succeeded-although-the-report-could-not-begin"
+		case "htmlfull":
+			// the per-strategy reports written by the HTML report with its own defaults: every page must exist and its
+			// rows must be the snapshots of the look-back window (a suffix of them for reports that skip the warm-up)
+			dir, err := os.MkdirTemp("", "ivbtf")
+			if err != nil {
+				return "ERR " + err.Error()
+			}
+			defer os.RemoveAll(dir)
+			rep := backtest.NewHTMLReport(dir)
+			rep.WriteStrategyReports = true
+			rep.Logger = quiet
+			bt := backtest.NewBacktest(repo, rep)
+			bt.Names, bt.Strategies, bt.Workers, bt.LastDays, bt.Logger = runNames, ss, workers, lastDays, quiet
+			if err := bt.Run(); err != nil {
+				return "ok runerr"
+			}
+			pages := 0
+			for _, name := range names {
+				var win []*asset.Snapshot
+				for _, s := range data[name] {
+					if s.Date.Equal(since) || s.Date.After(since) {
+						win = append(win, s)
+					}
+				}
+				for _, st := range ss {
+					if btNameCount[st.Name()] != 1 {
+						continue // two strategies of one name write the same file
+					}
+					raw, err := os.ReadFile(filepath.Join(dir, fmt.Sprintf("%s - %s.html", name, st.Name())))
+					if err != nil {
+						if len(win) == 0 {
+							continue
+						}
+						return fmt.Sprintf("ok missing-page:%s:%s", name, strings.ReplaceAll(st.Name(), " ", "_"))
+					}
+					var cells []string
+					lines := strings.Split(string(raw), "\n")
+					for i, line := range lines {
+						if strings.HasPrefix(strings.TrimSpace(line), "data.addRow([") && i+1 < len(lines) {
+							cells = append(cells, strings.TrimSuffix(strings.TrimSpace(lines[i+1]), ","))
+						}
+					}
+					if len(cells) > len(win) {
+						return fmt.Sprintf("ok page-rows:%s:%s:%d>%d", name, strings.ReplaceAll(st.Name(), " ", "_"), len(cells), len(win))
+					}
+					first := len(win) - len(cells)
+					for k, c := range cells {
+						if !rendersDay(c, win[first+k].Date) {
+							return fmt.Sprintf("ok page-date:%s:%s:row=%d:%s:snapshot-date=%s", name, strings.ReplaceAll(st.Name(), " ", "_"), k, strings.ReplaceAll(c, " ", "_"), win[first+k].Date.Format("2006-01-02"))
+						}
+					}
+					pages++
+				}
+			}
+			return fmt.Sprintf("ok fine pages=%d", pages)
 		case "html":
 			dir, err := os.MkdirTemp("", "ivbt")
 			if err != nil {
